@@ -413,7 +413,44 @@ func genSession(r *Rand, i int) Input {
 	var steps []Req
 	add := func(kind string, e uint64) { steps = append(steps, genReq(r, chain, pool, kind, e)) }
 	shape := ""
-	switch k := r.Intn(16); {
+	switch k := r.Intn(19); {
+	case k >= 16: // the node fails the FIRST request for some domain, then answers (sync.Once, error remembered as a value)
+		shape = "session:first-domain-request-fails"
+		// the request whose domain fetch fails: a registration (GenesisDomain) one time in four
+		focus := kinds[r.Intn(len(kinds))]
+		if r.Chance(1, 4) {
+			focus = "registration"
+		}
+		ef := window()
+		probe := Input{Chain: chain, Req: Req{Kind: focus}}
+		focusType, _ := domainKey(probe)
+		otherType := func() string { // a kind signed with another domain type
+			for {
+				k := anyKind()
+				probe.Kind = k
+				if t, _ := domainKey(probe); t != focusType {
+					return k
+				}
+			}
+		}
+		// 0-2 answered requests for OTHER domains first: the failing call is the first, second or third call to the node
+		for j := r.Intn(3); j > 0; j-- {
+			add(otherType(), window())
+		}
+		for j := r.Range(1, 2); j > 0; j-- {
+			add(focus, ef)
+			steps[len(steps)-1].DomFail = true
+		}
+		if r.Bool() {
+			add(otherType(), window())
+		}
+		add(sameDomainKind(r, focus), ef) // the node answers now
+		if r.Bool() {
+			steps = append(steps, steps[len(steps)-1]) // and the same request once more
+		}
+		if r.Bool() {
+			add(sameDomainKind(r, focus), window())
+		}
 	case k < 4: // a duty at or after a fork, then one of the same domain type before it
 		shape = "session:later-epoch-first"
 		add(kind, hi())
@@ -513,7 +550,11 @@ func genSession(r *Rand, i int) Input {
 	in.Req, in.Then = steps[0], steps[1:]
 	in.Tags = []string{forkStyle, poolStyle, shape}
 	// requests made at once have no order: no node failures among them (see above)
-	if r.Chance(1, 6) && !nodeDown {
+	anyFail := false
+	for _, q := range steps {
+		anyFail = anyFail || q.DomFail
+	}
+	if r.Chance(1, 6) && !anyFail {
 		in.Concurrent = true
 	}
 	return in
